@@ -49,6 +49,7 @@ CONSTANTS NSubs,        \* subscriber identities 1..NSubs (an identity can be re
           MaxPub,       \* total number of values published
           MaxBatch,     \* largest batch of one publish call
           MaxJoin,      \* bound on subscribe events
+          AtPos,        \* positions subscribe-at-position may use (those <= pos-1)
           MaxKick,      \* bound on kick events
           Serial,          \* TRUE: the wake-ups of one publisher call directly follow its critical section
           CopyBusy,     \* TRUE: a subscriber may be copied while it is parked
@@ -327,7 +328,7 @@ KickCS(s, via) ==
     /\ UNCHANGED <<pubvars, nextFree, pc, hnd, mode, recv, res, wakes, start, oow, njoin>>
 
 Next == \/ \E s \in Subs, m \in Modes : SubscribeRecent(s, m)
-        \/ \E s \in Subs, p \in 0..MaxPub, m \in Modes : SubscribeAt(s, p, m)
+        \/ \E s \in Subs, p \in AtPos, m \in Modes : SubscribeAt(s, p, m)
         \/ \E c \in Subs, o \in Subs : SubscribeCopy(c, o)
         \/ \E s \in Subs : Leave(s)
         \/ \E s \in Subs : Ready(s)
